@@ -456,6 +456,24 @@ func c12Scenarios(tier string) []*Scenario {
 				r.views("end")
 			})
 	}
+	// a tunnel that ends while it is being opened and registered must not stay in any view
+	for _, sc := range c14Dedicated(tier) {
+		if !strings.HasPrefix(sc.Name, "c14/open-vs-") {
+			continue
+		}
+		c := *sc
+		orig := sc.Check
+		c.Name, c.Prop = "c12/"+strings.TrimPrefix(sc.Name, "c14/"), "C12"
+		c.Check = func(w *World, x *Exec) []Violation {
+			vs := orig(w, x)
+			for i := range vs {
+				vs[i].Prop = "C12"
+				vs[i].Sig = "reg:" + vs[i].Sig
+			}
+			return vs
+		}
+		scs = append(scs, &c)
+	}
 	return scs
 }
 
